@@ -131,6 +131,34 @@ def run_core(ctx, prop, need_stats=(), need_shapes=(), sim_cfg="SIM_core", mc_qu
             for k, v in s1["stats"].items(): summ["stats"][k] = summ["stats"].get(k, 0) + v
             for k, v in s1["configs"].items(): summ["configs"][k + "".join(flags)] = v
             summ["violations"] += s1["violations"]
+    # --- 3b. regression: the stored replay of every finding of this property that was repaired in /repo is replayed
+    # again (a fixed entry suppresses nothing: if the defect returns, it is reported)
+    regress = []
+    if not ctx.get("replay"):
+        for k in vlib.known_findings().get("fixed", []):
+            fp = os.path.join(vlib.VERIF, k.get("replay", ""))
+            if k.get("property") != prop or not os.path.isfile(fp):
+                continue
+            try:
+                lines = [json.loads(l) for l in open(fp) if l.strip()] if fp.endswith(".ndjson") else [json.load(open(fp))]
+            except Exception:
+                continue
+            for b in lines:
+                if isinstance(b, dict) and "steps" in b:
+                    regress.append((k["id"], b))
+        if regress:
+            rf = os.path.join(vlib.workdir("core"), f"regress-{prop}.ndjson")
+            with open(rf, "w") as f:
+                for _, b in regress:
+                    f.write(json.dumps({kk: vv for kk, vv in b.items() if kk != "violation"}) + "\n")
+            flagsets = (harness_flags if harness_flags and isinstance(harness_flags[0], (list, tuple)) else [list(harness_flags)])
+            for flags in flagsets:
+                rc, out, err = vlib.harness(["replay", "--in", rf, "--seed", seed, "--threads", 4, "--out-dir", os.path.join(vlib.WORK, "replay", prop + "-regress")] + list(flags), timeout=600)
+                s1 = vlib.last_json(out)
+                for v in s1["violations"]:
+                    v["what"] = v["what"] + " [regression replay of repaired findings " + ",".join(sorted({r[0] for r in regress})) + "]"
+                summ["violations"] += s1["violations"]
+                summ["stats"]["regression_behaviours"] = summ["stats"].get("regression_behaviours", 0) + s1["behaviours"]
     # Every divergence between the specification's behaviour and the implementation found while replaying this
     # property's behaviours is reported: the property is decided through the specification, and a step where the
     # code leaves it invalidates the run whatever oracle noticed it first (native attribution kept in the text).
